@@ -227,6 +227,69 @@ theorem noisy_off_eq_noiseless (g : Geom) (nz : Noise K) (hn : NoiseOff g nz) (o
           exact ih _ _ hacc hlen
   exact key ops {} {} rfl (by intro a h; simp at h)
 
+/-- **Parameter setters between operations**: `flat_field`, `dark_current_rate`, `read_noise`,
+`include_photon_noise` may be assigned at any point of a history.  Whenever a read-out happens
+while every noise source is off *now* (unit flat field, zero read noise, no photon noise) and no
+dark current was in force during the integrations of that exposure, it returns exactly what the
+noiseless detector returns at the same point of the history with the setters removed — whatever
+the parameters were before, and whatever was assigned and re-assigned in between. -/
+theorem setters_off_eq_noiseless [DecidableEq K] (g : Geom) :
+    ∀ (ops : List (POp K)) (pst : PSt K) (st : St K),
+      (pst.clean = true → pst.acc = st.acc) →
+      (∀ a, st.acc = some a → a.length = g.npix) →
+      List.Forall₂ (fun (r : Bool × Obs K) (o : Obs K) => r.1 = true → r.2 = o)
+        (pReads g pst ops) (reads g st (strip ops)) := by
+  intro ops
+  induction ops with
+  | nil => intro _ _ _ _; exact List.Forall₂.nil
+  | cons op ops ih =>
+    intro pst st hacc hlen
+    cases op with
+    | readOut =>
+      simp only [pReads, strip, reads]
+      refine List.Forall₂.cons ?_ (ih _ _ (by intro _; rw [pStep_readOut_fst]; simp [step, readOut]) (by intro a h; simp [step, readOut] at h))
+      intro hoff
+      simp only [PSt.off, Bool.and_eq_true, Bool.not_eq_true', decide_eq_true_eq] at hoff
+      obtain ⟨⟨⟨hclean, hph⟩, hflat⟩, hsig⟩ := hoff
+      have hdet : pst.deterministic g = true := by simp [PSt.deterministic, hph, hsig]
+      have hl : (st.acc.getD (vzero g.npix)).length = g.npix := by
+        cases h : st.acc with
+        | none => simp [vzero]
+        | some a => simpa using hlen a h
+      simp only [pStep, hdet, if_true, step, readOut, hacc hclean, hflat]
+      rw [zipWith_mul_ones _ _ hl]
+    | integrate p dt w =>
+      by_cases hp : p.length = g.ninput
+      · simp only [pReads, strip, reads]
+        have hc := binCharge_length g p dt w hp
+        apply ih
+        · intro hclean
+          simp only [pStep, hp, if_true, Bool.and_eq_true, decide_eq_true_eq] at hclean
+          obtain ⟨hcl, hdark⟩ := hclean
+          simp only [pStep, hp, if_true, step, Detector.integrate, hacc hcl, hdark]
+          rw [zipWith_add_zero_dark _ _ dt w (accAdd_length g st.acc _ hc hlen)]
+        · intro a h
+          simp only [step, Detector.integrate, hp, if_true, Option.some.injEq] at h
+          subst h
+          exact accAdd_length g st.acc _ hc hlen
+      · simp only [pReads, strip, reads]
+        have e1 : (pStep g pst (.integrate p dt w)).1 = pst := by simp [pStep, hp]
+        have e2 : (step g st (.integrate p dt w)).1 = st := by simp [step, Detector.integrate, hp]
+        rw [e1, e2]
+        exact ih pst st hacc hlen
+    | setFlat m => simp only [pReads, strip]; exact ih _ st (by simpa [pStep] using hacc) hlen
+    | setDark d => simp only [pReads, strip]; exact ih _ st (by simpa [pStep] using hacc) hlen
+    | setSigma s' => simp only [pReads, strip]; exact ih _ st (by simpa [pStep] using hacc) hlen
+    | setPhoton b => simp only [pReads, strip]; exact ih _ st (by simpa [pStep] using hacc) hlen
+
+/-- the seeded-defect shape, concretely: scalar 0 (unit map) → explicit map → scalar 0 again: the
+last read-out is flagged "off" and equals the noiseless image -/
+example :
+    pReads ({ dims := [2], s := 1 } : Geom)
+      ({ flat := [1, 1], dark := [0, 0], sigma := [0, 0] } : PSt Rat)
+      [.setFlat [2, 3], .integrate [1, 1] 1 1, .readOut, .setFlat [1, 1], .integrate [1, 2] 1 1, .readOut]
+      = [(false, .image [2, 3]), (true, .image [1, 2])] := by decide +kernel
+
 /-! ### the unrepaired tree (`…Old`), counterexamples -/
 
 /-- D15: on the unrepaired tree a read-out with nothing integrated fails. -/
